@@ -1,7 +1,7 @@
 use std::convert::TryFrom;
 
 use crate::check::constrain::constraint::builder::ConstrBuilder;
-use crate::check::constrain::generate::definition::id_from_var;
+use crate::check::constrain::generate::definition::{constrain_args, id_from_var};
 use crate::check::constrain::generate::env::Environment;
 use crate::check::constrain::generate::{gen_vec, generate, Constrained};
 use crate::check::context::arg::python::SELF;
@@ -18,6 +18,10 @@ pub fn gen_class(
     ctx: &Context,
     constr: &mut ConstrBuilder,
 ) -> Constrained {
+    if let Node::Class { args, ty, .. } = &ast.node {
+        constrain_class_args(args, ty, env, ctx, constr)?;
+    }
+
     match &ast.node {
         Node::Class {
             body: Some(body),
@@ -62,6 +66,30 @@ pub fn gen_class(
             "Expected class or type definition",
         )]),
     }
+}
+
+/// Class arguments are the parameters of the constructor: their defaults must fit their declared types.
+///
+/// The environment they are added to is not handed on, the class body does not see them.
+fn constrain_class_args(
+    args: &[AST],
+    ty: &AST,
+    env: &Environment,
+    ctx: &Context,
+    constr: &mut ConstrBuilder,
+) -> Constrained<()> {
+    let class_env = env.in_class(&StringName::try_from(ty)?);
+    for arg in args {
+        match &arg.node {
+            Node::FunArg { .. } => {
+                constrain_args(std::slice::from_ref(arg), &class_env, ctx, constr)?;
+            }
+            _ => {
+                generate(arg, &class_env, ctx, constr)?;
+            }
+        }
+    }
+    Ok(())
 }
 
 pub fn constrain_class_body(
